@@ -184,9 +184,9 @@ func (tm *TypeMap) Zero(t types.Type) Term {
 	case SString:
 		return StrLit("")
 	case SSlice:
-		return T("nil-slice", SSlice)
+		return T("(mk-slice 0 0 0 0)", SSlice)
 	case SIface:
-		return T("nil-iface", SIface)
+		return T("(mk-iface 0 0)", SIface)
 	}
 	if _, ok := t.Underlying().(*types.Struct); ok {
 		if n, isNamed := t.(*types.Named); !isNamed || tm.inModule(n) {
@@ -254,3 +254,9 @@ func isRefLike(t types.Type) bool {
 	}
 	return false
 }
+
+const nilIfaceLit = "(mk-iface 0 0)"
+const nilSliceLit = "(mk-slice 0 0 0 0)"
+
+func isNilIfaceTerm(t Term) bool { return t.S == "nil-iface" || t.S == nilIfaceLit }
+func isNilSliceTerm(t Term) bool { return t.S == "nil-slice" || t.S == nilSliceLit }
